@@ -52,10 +52,18 @@ pub fn run_c12(rep: &Report) -> i32 {
                 *local.entry("goals".into()).or_insert(0) += 1;
                 let mut crash_states: FxHashSet<String> = FxHashSet::default();
                 for n in 1..=n_calls {
-                    let seconds: Vec<Option<usize>> = std::iter::once(None)
-                        .chain((1..=second_fault_limit.min(n_calls)).map(Some))
+                    // (second injected crash, order of the clean retries: 0 = same goal first, 1 = the other goals first)
+                    // order 2 (SLG only): the first call after the crash is `solve_multiple`
+                    let firsts: Vec<(Option<usize>, u8)> = if cfg.is_slg() && !g.peeled.var_creation.is_empty() {
+                        vec![(None, 0u8), (None, 1u8), (None, 2u8)]
+                    } else {
+                        vec![(None, 0u8), (None, 1u8)]
+                    };
+                    let variants: Vec<(Option<usize>, u8)> = firsts
+                        .into_iter()
+                        .chain((1..=second_fault_limit.min(n_calls)).map(|m| (Some(m), 0u8)))
                         .collect();
-                    for second in seconds {
+                    for (second, retry_order) in variants {
                         let mut solver = AnySolver::new(cfg);
                         db.reset(Some(n), false);
                         let (r, _) = solver.solve(&db, &g.peeled.ugoal);
@@ -70,7 +78,9 @@ pub fn run_c12(rep: &Report) -> i32 {
                                 continue;
                             }
                         }
-                        if second.is_none() {
+                        if second.is_none() && retry_order == 1 {
+                            *local.entry("crash_schedules_other_goals_first".into()).or_insert(0) += 1;
+                        } else if second.is_none() {
                             *local.entry("crash_points".into()).or_insert(0) += 1;
                             *local.entry(format!("crash_in_{}", log[n - 1])).or_insert(0) += 1;
                             crash_states.insert(solver.fingerprint());
@@ -80,7 +90,7 @@ pub fn run_c12(rep: &Report) -> i32 {
                         let input = || {
                             json!({"fragment": pc.frag, "program_index": pc.pi, "program": pc.text, "goal": g.text,
                                 "solver": cfg.name(), "crash_at_db_call": n, "db_method": log[n - 1],
-                                "second_crash_at": second, "db_calls_of_clean_solve": n_calls})
+                                "second_crash_at": second, "retry_order": if retry_order == 0 { "same goal first" } else { "other goals first" }, "db_calls_of_clean_solve": n_calls})
                         };
                         // optional second injected panic during the retry
                         if let Some(m) = second {
@@ -104,8 +114,52 @@ pub fn run_c12(rep: &Report) -> i32 {
                         }
                         // clean retries of the same goal and of the other goals
                         db.reset(None, false);
-                        let mut order: Vec<usize> = vec![gi];
-                        order.extend((0..alpha.len()).filter(|k| *k != gi));
+                        if retry_order == 2 {
+                            // enumeration right after the crash must equal a fresh solver's enumeration
+                            let enumerate = |solver: &mut AnySolver| -> Option<Vec<String>> {
+                                let dec = crate::drive::Decoder::with_universes(&pc.chalk, &g.peeled.universes);
+                                let mut out = vec![];
+                                let (r, _) = solver.solve_multiple(&db, &g.peeled.ugoal, &mut |a, next| {
+                                    out.push(match &a {
+                                        chalk_solve::SubstitutionResult::Definite(c) => format!("Definite {:?} next={}", dec.constrained(c), next),
+                                        chalk_solve::SubstitutionResult::Ambiguous(c) => format!("Ambiguous {:?} next={}", dec.constrained(c), next),
+                                        chalk_solve::SubstitutionResult::Floundered => format!("Floundered next={}", next),
+                                    });
+                                    out.len() < 6
+                                });
+                                match r {
+                                    Caught::Ok(ended) => {
+                                        out.push(format!("returned {}", ended));
+                                        Some(out)
+                                    }
+                                    Caught::Panic(loc, msg) => Some(vec![format!("PANIC {} {}", loc, msg)]),
+                                    _ => None,
+                                }
+                            };
+                            let got = enumerate(&mut solver);
+                            let want = enumerate(&mut AnySolver::new(cfg));
+                            *local.entry("solve_calls".into()).or_insert(0) += 2;
+                            *local.entry("crash_schedules_enumeration_first".into()).or_insert(0) += 1;
+                            if got != want {
+                                rep.violation(Violation {
+                                    property: "C12".into(),
+                                    kind: "wrong-enumeration-after-panic".into(),
+                                    site: format!("{}/solve_multiple", cfg.short()),
+                                    what: format!(
+                                        "{}: after a callback panic at db call {}/{} ({}) while solving `{}`, solve_multiple yields {:?}, a fresh solver {:?}",
+                                        cfg.name(), n, n_calls, log[n - 1], g.text, got, want
+                                    ),
+                                    input: input(),
+                                });
+                                continue;
+                            }
+                        }
+                        let mut order: Vec<usize> = (0..alpha.len()).filter(|k| *k != gi).collect();
+                        if retry_order == 0 {
+                            order.insert(0, gi);
+                        } else {
+                            order.push(gi);
+                        }
                         for k in order {
                             let Some(want) = &fresh[k] else { continue };
                             let (r, _) = solver.solve(&db, &alpha[k].peeled.ugoal);
@@ -157,12 +211,12 @@ pub fn run_c12(rep: &Report) -> i32 {
     c01::vacuity(rep, &["crash_points", "distinct_solver_states_at_crash"]);
     let states = rep.get("distinct_solver_states_at_crash");
     let tr = rep.get("solve_calls");
-    let nt = rep.get("crash_points") + rep.get("double_crash_schedules");
+    let nt = rep.get("crash_points") + rep.get("crash_schedules_other_goals_first") + rep.get("crash_schedules_enumeration_first") + rep.get("double_crash_schedules");
     rep.finish(
         states,
         tr,
         nt,
-        "for a deterministic thinning of the reduced C01 corpus (programs with where-clauses), every goal of the history alphabet and both solvers: a clean solve through the counting database gives N calls; then EVERY crash point n = 1..N is injected (the n-th call panics, whichever method it is), caught, optionally followed by a second injected panic in the retry (thorough), then the same goal and every other alphabet goal are solved on the same solver and compared with fresh-solver answers; evaluations = solve calls, non-trivial = injected crash schedules (every one is a distinct (goal, n[, m]) triple)",
+        "for a deterministic thinning of the reduced C01 corpus (programs with where-clauses), every goal of the history alphabet and both solvers: a clean solve through the counting database gives N calls; then EVERY crash point n = 1..N is injected (the n-th call panics, whichever method it is), caught, optionally followed by a second injected panic in the retry (thorough), then the same goal and every other alphabet goal are solved on the same solver in both orders (same goal first / other goals first) and compared with fresh-solver answers; evaluations = solve calls, non-trivial = injected crash schedules (every one is a distinct (goal, n[, m]) triple)",
         true,
         &["the database wrapper forwards all RustIrDatabase/UnificationDatabase methods of chalk-integration's Program", "panics are injected only from database callbacks, as the property states"],
     )
